@@ -337,7 +337,7 @@ def check(tier: str, seed: int, t0: float, build: core.BuildStatus) -> int:
             md = uni.metadata()
             for _ in range(n_rand):
                 src, q = qgen.gen_query(rng, uni, depth=rng.choice([1, 2, 3, 3] if tier == "quick" else [1, 2, 3, 3, 4]),
-                                        allow=("first", "aggregate", "range", "selectmany_inside", "shared_shapes", "index"))
+                                        allow=("first", "aggregate", "range", "selectmany_inside", "shared_shapes", "index", "flatseq"))
                 c = semrun.translate(be, src, md, model)
                 oc.evaluations += 1
                 for f in q.feat:
